@@ -369,30 +369,27 @@ def u4(ctx, F, D):
 
 
 def en_passant_rows(F):
-    """{owner: {old: row, new: row, taken: row}} from the EnPassant arm of Game::push."""
+    """{owner: {old: row, new: row, taken: row}} from the EnPassant arm of Game::push (board-surgery extraction, S3)."""
+    from . import surgery
     fn = F.fn("chess::Game::push")
-    env = hir.Env(fn["hir"], F)
-    sym = hir.Sym(env, F)
-    for n, anc in hir.walk(fn["hir"]["body"]):
-        if n.get("k") == "Match" and n.get("src") == "Normal":
-            for a in n["arms"]:
-                if hir.pat_key(a["pat"]) == ("variant", MV + "EnPassant"):
-                    # set_position calls in order: taken, old, new (by value None / None / Some(pawn))
-                    out = {}
-                    calls = [c for c, _ in hir.walk(a["body"]) if c.get("k") == "MethodCall" and c["name"] == "set_position"]
-                    for c in calls:
-                        sq = sym(c["args"][0])
-                        val = sym(c["args"][1])
-                        if sq[0] != "match":
-                            return None
-                        for pk, g, body in sq[2]:
-                            if pk[0] != "variant" or body[0] != "call":
-                                return None
-                            owner = pk[1].split("::")[-1]
-                            row, colsrc = hir.sym_int(body[2][0]), body[2][1]
-                            kind = "new" if val[0] != "variant" else ("old" if colsrc == ("var", "start_col") else "taken")
-                            out.setdefault(owner, {})[kind] = row
-                    if set(out) == {"White", "Black"} and all(set(v) == {"old", "new", "taken"} for v in out.values()):
-                        return out
-                    return None
-    return None
+    try:
+        ex, _ = surgery.extract(fn, F)
+    except surgery.Extraction:
+        return None
+    out = {}
+    for owner in ("White", "Black"):
+        d = {}
+        for sq, content, g, line in ex["EnPassant"][owner]["writes"]:
+            if not (isinstance(sq, tuple) and len(sq) == 2):
+                return None
+            row, col = sq
+            if content is None and col == "start_col":
+                d["old"] = row
+            elif content is None and col == "end_col":
+                d["taken"] = row
+            elif content is not None and col == "end_col":
+                d["new"] = row
+        if set(d) != {"old", "new", "taken"}:
+            return None
+        out[owner] = d
+    return out
